@@ -109,7 +109,7 @@ def run(module, cfg, workers=8, simulate=None, depth=None, seed=None, env=None, 
             r.generated = int(m.group(1)); r.distinct = r.generated
     # rc: 0 ok, 12 safety violation, 13 liveness violation, 11 deadlock; anything else = framework failure
     if r.rc not in (0, 10, 11, 12, 13):
-        raise TlcError("TLC failed on %s (rc=%s)\n%s" % (module, r.rc, p.stdout[-3000:]))
+        raise TlcError("TLC failed on %s (rc=%s)\n%s" % (module, r.rc, (r.cex[:3000] if r.cex else p.stdout[-3000:])))
     if r.rc != 0 and not (r.violated or r.postcondition_failed or r.deadlock):
         if "Assumption" in p.stdout and "is false" in p.stdout:
             r.violated = "ASSUME"
